@@ -55,11 +55,14 @@ ENGINES["relay"] = {
          "replace": ["relayGatherWriteTCPConn^=if tc, ok := verifSimTCPConn(conn); ok { return tc, true }",
                      "tcpConnHasPendingReadData^=if p, ok := verifSimPending(conn); ok { return p, nil }",
                      "relayGatherWriteTo^=defer verifNoTCPScope()()"]},
+        # seam: the kernel's per-flow hand-over record (conn_state / routing_handoff lookup) is scripted by the harness
+        {"pkg": "control", "files": ["utils.go"],
+         "replace": ["controlPlaneCore.RetrieveRoutingResult^=if verifRelayRouting != nil { return verifRelayRouting(src, dst, l4proto) }"]},
     ],
     "extra_files": {"control/zz_verif_relay_hooks.go": "harness/control/relay_hooks.go.txt"},
     "harness": ["harness/control/relay_test.go", "harness/control/health_shared_test.go"],
     "quick_secs": 40, "thorough_secs": 500,
-    "probes": ["relay.name-sniffed", "relay.idle-gap-survived", "relay.port53", "relay.server-first", "relay.data-after-client-halfclose", "relay.tioc-inq-asked", "relay.early-read-with-prefix", "relay.payloadless-client-fin"],
+    "probes": ["relay.name-sniffed", "relay.idle-gap-survived", "relay.port53", "relay.server-first", "relay.data-after-client-halfclose", "relay.tioc-inq-asked", "relay.early-read-with-prefix", "relay.payloadless-client-fin", "relay.rerouted-to-direct"],
 }
 
 ENGINES["quicsniff"] = {
